@@ -54,89 +54,10 @@ pub trait BlockCipherDecBackend: ParBlocksSizeUser + Sized {
             (#[trigger] final(blocks)@[i])@ == self.dec_fn()(old(blocks)@[i]@);
 }
 
-// ---- block-mode backends: the transducer contract, stated once (DESIGN 3.3) ----
-pub trait BlockModeEncBackend: ParBlocksSizeUser {
-    spec fn abs(&self) -> Abs;
-    #[verifier::prophetic]
-    spec fn abs_fut(&self) -> Abs;
-    spec fn step(&self) -> Step;
+// ---- block-mode backends, rank-2 closures and the BlockMode{Encrypt,Decrypt} traits are NOT declared here:
+// they are extracted from the pinned `cipher` crate (contracts/dep_block.py) so that their default methods and
+// the BlocksCtx / BlockCtx drivers are verified text, not assumptions (DESIGN 3.2, D1/D2) ----
 
-    fn encrypt_block(&mut self, block: InOut<'_, '_, Block<Self>>)
-        ensures
-            final(self).step() == old(self).step(),
-            final(self).abs_fut() == old(self).abs_fut(),
-            (final(self).abs(), seq![block.out_fut()@]) == run(old(self).step(), old(self).abs(), seq![block.in_val()@]);
-}
-
-pub trait BlockModeDecBackend: ParBlocksSizeUser {
-    spec fn abs(&self) -> Abs;
-    #[verifier::prophetic]
-    spec fn abs_fut(&self) -> Abs;
-    spec fn step(&self) -> Step;
-
-    fn decrypt_block(&mut self, block: InOut<'_, '_, Block<Self>>)
-        ensures
-            final(self).step() == old(self).step(),
-            final(self).abs_fut() == old(self).abs_fut(),
-            (final(self).abs(), seq![block.out_fut()@]) == run(old(self).step(), old(self).abs(), seq![block.in_val()@]);
-
-    // precondition derived from the single call site in cipher::block::ctx (BlocksCtx::call takes the
-    // parallel path only if ParBlocksSize > 1).  The default body below is the dependency's own text
-    // (cipher-0.5.0-pre.8 src/block/backends.rs), verified here against the transducer contract.
-    fn decrypt_par_blocks(&mut self, mut blocks: InOut<'_, '_, ParBlocks<Self>>)
-        requires Self::ParBlocksSize::USIZE > 1
-        ensures
-            final(self).step() == old(self).step(),
-            final(self).abs_fut() == old(self).abs_fut(),
-            (final(self).abs(), views(blocks.out_fut()@)) == run(old(self).step(), old(self).abs(), views(blocks.in_val()@))
-    {
-        broadcast use Array::axiom_len;
-        let ghost step0 = self.step();
-        let ghost abs0 = self.abs();
-        let ghost in0 = blocks.in_val()@;
-        let ghost b0 = blocks;
-        for i in 0..Self::ParBlocksSize::USIZE
-            invariant
-                self.step() == step0, self.abs_fut() == old(self).abs_fut(),
-                in0.len() == Self::ParBlocksSize::USIZE, blocks.out@.len() == in0.len(),
-                mut_ref_future(blocks.out) == mut_ref_future(b0.out), blocks.inp == b0.inp, blocks.aliased == b0.aliased,
-                forall |j: int| i <= j < in0.len() ==> #[trigger] blocks.in_val()@[j] == in0[j],
-                (self.abs(), views(blocks.out@.take(i as int))) == run(step0, abs0, views(in0.take(i as int))),
-        {
-            let ghost a1 = self.abs();
-            let ghost o1 = blocks.out@;
-            self.decrypt_block(blocks.get(i));
-            proof {
-                let xs = views(in0.take(i as int));
-                run_concat(step0, abs0, xs, seq![in0[i as int]@]);
-                assert(views(in0.take(i + 1)) =~= xs + seq![in0[i as int]@]);
-                assert(views(blocks.out@.take(i + 1)) =~= views(o1.take(i as int)) + seq![blocks.out@[i as int]@]);
-            }
-        }
-        proof {
-            assert(in0.take(in0.len() as int) =~= in0);
-            assert(blocks.out@.take(in0.len() as int) =~= blocks.out@);
-        }
-    }
-}
-
-// ---- rank-2 closures, contracts at the abstract level ----
-pub trait BlockModeEncClosure: BlockSizeUser + Sized {
-    #[verifier::prophetic]
-    spec fn post(&self, step: Step, a0: Abs, a1: Abs) -> bool;
-    fn call<B: BlockModeEncBackend<BlockSize = Self::BlockSize>>(self, backend: &mut B)
-        ensures self.post(old(backend).step(), old(backend).abs(), final(backend).abs()),
-                final(backend).step() == old(backend).step(),
-                final(backend).abs_fut() == old(backend).abs_fut();
-}
-pub trait BlockModeDecClosure: BlockSizeUser + Sized {
-    #[verifier::prophetic]
-    spec fn post(&self, step: Step, a0: Abs, a1: Abs) -> bool;
-    fn call<B: BlockModeDecBackend<BlockSize = Self::BlockSize>>(self, backend: &mut B)
-        ensures self.post(old(backend).step(), old(backend).abs(), final(backend).abs()),
-                final(backend).step() == old(backend).step(),
-                final(backend).abs_fut() == old(backend).abs_fut();
-}
 pub trait BlockCipherEncClosure: BlockSizeUser + Sized {
     // what the closure needs from whoever hands it to a cipher (true for the mode crates; the `cts`
     // closures need a well-formed buffer of at least one block, which their length gate establishes)
@@ -178,18 +99,3 @@ pub trait BlockCipherDecrypt: BlockSizeUser + Sized {
         ensures final(out_block)@ == self.dec_fn()(in_block@);
 }
 
-// ---- the mode objects as seen by the drivers ----
-pub trait BlockModeEncrypt: BlockSizeUser + Sized {
-    spec fn abs(&self) -> Abs;
-    spec fn step(&self) -> Step;
-    fn encrypt_with_backend<F: BlockModeEncClosure<BlockSize = Self::BlockSize>>(&mut self, f: F)
-        ensures f.post(old(self).step(), old(self).abs(), final(self).abs()),
-                final(self).step() == old(self).step();
-}
-pub trait BlockModeDecrypt: BlockSizeUser + Sized {
-    spec fn abs(&self) -> Abs;
-    spec fn step(&self) -> Step;
-    fn decrypt_with_backend<F: BlockModeDecClosure<BlockSize = Self::BlockSize>>(&mut self, f: F)
-        ensures f.post(old(self).step(), old(self).abs(), final(self).abs()),
-                final(self).step() == old(self).step();
-}
